@@ -33,7 +33,7 @@ func (c20) ID() string    { return "C20" }
 func (c20) RunFn() string { return "run_C20" }
 func (c20) Workers() int  { return 8 }
 func (c20) Rule() string {
-	return "structured addresses: DNS names (digit/hyphen labels, single label, trailing dot, xn--), IPv4, IPv6 (8 groups, :: at every position and run length, embedded and mapped IPv4, %zone, mixed case) bare or bracketed, x port absent/present, x ensurePort port argument in {5222,0,negative,large}; every port 0..65535 for one host per form (thorough; a sample in quick); all strings of length <= 4 (thorough: <= 5) plus random strings of length <= 8 over {a : [ ] . 1 w s / W S}; ws/wss URLs with the scheme in every letter case, hosts named ws/wss (any case) with ports; addresses with white space at either end are run (no panic) but compared as a constant (not an address form of the property); distinct = distinct (address, port argument); non-trivial = structured form, or a raw string containing ':' '[' or ']'"
+	return "structured addresses: DNS names (digit/hyphen labels, single label, trailing dot, xn--), IPv4, IPv6 (8 groups, :: at every position and run length, embedded and mapped IPv4, %zone, mixed case) bare or bracketed, x port absent/present, x ensurePort port argument in {5222,0,negative,large}; for every input also the SRV path of client.go (ensurePort(addr, port) handed to NewClientTransport, i.e. ensurePort applied twice: the second application must change nothing, and a portless form must be dialled at exactly the first port); one structured host in seven also as host: / [v6]: (empty port: model and code compared, nothing asserted); every port 0..65535 for one host per form (thorough; a sample in quick); all strings of length <= 4 (thorough: <= 5) plus random strings of length <= 8 over {a : [ ] . 1 w s / W S}; ws/wss URLs with the scheme in every letter case, hosts named ws/wss (any case) with ports; addresses with white space at either end, and the property's own exception - a string that is not an IPv6 literal as a whole but an unbracketed IPv6 literal directly followed by :digits - are run (no panic) but compared as a constant (not an address form of the property); distinct = distinct (address, port argument); non-trivial = structured form, or a raw string containing ':' '[' or ']'"
 }
 
 const c20Alphabet = "a:[].1ws/WS"
@@ -180,9 +180,15 @@ func c20EPort(r *rand.Rand) string {
 func c20Forms(out []interface{}, form, host string, parg int, eport string) []interface{} {
 	switch form {
 	case "name", "v4":
+		if len(out)%7 == 0 { // a separator with an empty port: model and code compared, nothing asserted (Props/C20.v C20_empty_port_not_defaulted)
+			out = append(out, c20In{Addr: host + ":", Port: parg, Form: "raw"})
+		}
 		out = append(out, c20In{Addr: host, Port: parg, Form: form, Host: host})
 		out = append(out, c20In{Addr: host + ":" + eport, Port: parg, Form: form, Host: host, HasP: true, EPort: eport})
 	case "v6":
+		if len(out)%7 == 0 {
+			out = append(out, c20In{Addr: "[" + host + "]:", Port: parg, Form: "raw"})
+		}
 		out = append(out, c20In{Addr: host, Port: parg, Form: "v6", Host: host})
 		out = append(out, c20In{Addr: "[" + host + "]", Port: parg, Form: "v6b", Host: host})
 		out = append(out, c20In{Addr: "[" + host + "]:" + eport, Port: parg, Form: "v6b", Host: host, HasP: true, EPort: eport})
@@ -411,7 +417,12 @@ func (c20) Run(inp interface{}) Sx {
 	ep := xmpp.VerifEnsurePort(in.Addr, in.Port)
 	ct := xmpp.NewClientTransport(xmpp.TransportConfiguration{Address: in.Addr})
 	pt, err := xmpp.NewComponentTransport(xmpp.TransportConfiguration{Address: in.Addr})
-	full := L(SBytes(ep), c20Split(ep), c20Split(in.Addr), c20Transport(ct, nil), c20Transport(pt, err), c20Checker(in.Addr))
+	// the SRV path of client.go: the address completed with the SRV port is handed to the constructor,
+	// which applies ensurePort (with 5222) a second time
+	ep2 := xmpp.VerifEnsurePort(ep, 5222)
+	st := xmpp.NewClientTransport(xmpp.TransportConfiguration{Address: ep})
+	full := L(SBytes(ep), c20Split(ep), c20Split(in.Addr), c20Transport(ct, nil), c20Transport(pt, err), c20Checker(in.Addr),
+		SBytes(ep2), c20Transport(st, nil))
 	if c20Excluded(in.Addr) {
 		// exercised (no panic), but nothing is asserted about it: constant on both sides
 		return L(Z(-1))
@@ -428,7 +439,35 @@ func (c20) Input(inp interface{}) Sx {
 // none of the address forms the property quantifies over (host name, IPv4, bracketed or bare
 // IPv6, with or without a port; URLs), so whether the library trims it or not is not decided
 // by the property.
-func c20Excluded(addr string) bool { return strings.TrimSpace(addr) != addr }
+//
+// The second excluded class is the property's own exception: "a bare IPv6 literal directly
+// followed by ':port', which is inherently ambiguous" (c20BareV6Port).
+func c20Excluded(addr string) bool { return strings.TrimSpace(addr) != addr || c20BareV6Port(addr) }
+
+// c20BareV6Port: no brackets, NOT an IPv6 literal as a whole, but what precedes the last ':' is
+// one (zone allowed) and what follows is a decimal number. Whether such a string is read as
+// literal + port or wrapped whole into brackets is not decided by the property; a string that
+// is an IPv6 literal as it stands ("::1:5222" included) is a bare literal without port and stays
+// inside every statement.
+func c20BareV6Port(addr string) bool {
+	if strings.ContainsAny(addr, "[]") {
+		return false
+	}
+	i := strings.LastIndexByte(addr, ':')
+	if i < 0 || i+1 == len(addr) {
+		return false
+	}
+	for _, c := range addr[i+1:] {
+		if c < '0' || c > '9' {
+			return false
+		}
+	}
+	if a, err := netip.ParseAddr(addr); err == nil && a.Is6() {
+		return false
+	}
+	a, err := netip.ParseAddr(addr[:i])
+	return err == nil && a.Is6()
+}
 
 // Direct oracle (no model): the property's own predicate on what was observed.
 func (c20) Oracle(inp interface{}, obs Sx) (string, string) {
@@ -436,8 +475,14 @@ func (c20) Oracle(inp interface{}, obs Sx) (string, string) {
 	if c20Excluded(in.Addr) {
 		return "", ""
 	}
-	if len(obs.L) != 6 {
+	if len(obs.L) != 8 {
 		return "observation shape", "shape"
+	}
+	// a second ensurePort never changes the result of a first one (any string, any port numbers);
+	// reported after the clauses that name an address form
+	twiceMsg, twiceSig := "", ""
+	if e1, e2 := string(bytesOf(obs.L[0])), string(bytesOf(obs.L[6])); e1 != e2 {
+		twiceMsg, twiceSig = fmt.Sprintf("ensurePort(%q, %d) = %q, and ensurePort of that with 5222 = %q: the second application changed it", in.Addr, in.Port, e1, e2), "ensure-twice"
 	}
 	client, comp := obs.L[3], obs.L[4]
 	kind := func(t Sx) int64 {
@@ -470,7 +515,7 @@ func (c20) Oracle(inp interface{}, obs Sx) (string, string) {
 		}
 	}
 	if in.Form == "raw" {
-		return "", ""
+		return twiceMsg, twiceSig
 	}
 	// generator sanity: IP forms are IP literals, numeric explicit ports are port numbers
 	if in.Form != "name" {
@@ -518,6 +563,19 @@ func (c20) Oracle(inp interface{}, obs Sx) (string, string) {
 			return m, s
 		}
 	}
+	// SRV path: completed with port in.Port first, the constructor must dial exactly that host and port
+	if srv := obs.L[7]; !scheme {
+		if kind(srv) != 0 {
+			return fmt.Sprintf("NewClientTransport(ensurePort(%q, %d)) is not the XMPP (TCP) transport (kind %d)", in.Addr, in.Port, kind(srv)), "srv-kind-" + shape
+		}
+		want = strconv.Itoa(in.Port)
+		if in.HasP {
+			want = in.EPort
+		}
+		if m, s := valid(fmt.Sprintf("dial address after ensurePort(.., %d) (SRV path)", in.Port), srv.L[2], want, "srv"); m != "" {
+			return m, s
+		}
+	}
 	// the certificate checker takes the same address forms
 	chk := obs.L[5]
 	want = "5222"
@@ -533,7 +591,7 @@ func (c20) Oracle(inp interface{}, obs Sx) (string, string) {
 	if d := string(bytesOf(chk.L[2])); d != in.Host {
 		return fmt.Sprintf("NewChecker(%q) takes %q for the host, expected %q", in.Addr, d, in.Host), "checker-domain-" + shape
 	}
-	return "", ""
+	return twiceMsg, twiceSig
 }
 
 // c20WsURL: is a a URL whose scheme (the part before the first "://"), compared without
@@ -555,7 +613,11 @@ func c20WsURL(a string) bool {
 func (c20) Key(inp interface{}) (string, bool) {
 	in := inp.(c20In)
 	if c20Excluded(in.Addr) {
-		hist("excluded:outer-white-space")
+		if c20BareV6Port(in.Addr) {
+			hist("excluded:bare-v6-then-port")
+		} else {
+			hist("excluded:outer-white-space")
+		}
 		return in.Addr + "|" + strconv.Itoa(in.Port), false
 	}
 	cls := in.Form
